@@ -31,9 +31,9 @@ META = {
         "technique": "deterministic simulation: clock steered onto deadlines (sub-tick, no sweep), every operation kind applied to expired-unswept keys, incl. save/load; model visibility oracle",
         "level_text": "Seeded search that drives keys into the expired-but-unswept state (clock advanced to deadline-1/deadline/deadline+1, no CleanUp) and applies every public operation kind to them, comparing results, events and state with the model; a second engine saves and reloads caches holding such entries. The op-kind x key-state matrix is reported so an uncovered cell is visible.",
         "level_note": SEQ_NOTE,
-        "rule": "one case = (configuration with expiry, operation sequence [, save/load plan]). Non-trivial: at least 3 different operation kinds were applied to an expired-but-unswept key (sequence engine) or a save/load round trip ran (persistence engine). Distinct: hash of the case.",
+        "rule": "one case = (configuration with expiry, operation sequence [, save/load plan]) or (configuration, per-task programs with barriers) x one schedule. Non-trivial: at least 3 different operation kinds were applied to an expired-but-unswept key (sequence engine), a save/load round trip ran (persistence engine), or operations of different tasks overlapped on a key and the clock moved at a barrier (concurrent engine). Distinct: hash of the case (and context-switch sequence).",
         "components": comp(),
-        "assumptions": ["the concurrent-rounds form (clock moves only at barriers) is covered by the C02/C09 engines only for configurations without reachable expiry; C03's concurrent half is decided sequentially per round here"],
+        "assumptions": ["concurrent form: rounds of 2-4 tasks separated by barriers at which the clock moves onto / around the deadlines (the property's 'clock only moves between operations'); per-key histories are checked with porcupine against the map with deadlines for the built-in policies; a GetEntryQuietly miss during a concurrent overwrite and a SetExpiresAfter lost to a racing write are accepted (the property forbids seeing dead values, not missing live ones)"],
     },
     "C07": {
         "technique": "deterministic simulation: weights/maxima/clock sequences; every Overflow/Expiration event checked against the model's physical weight and deadlines at that moment",
